@@ -32,6 +32,7 @@ theorem SendEq.failedByMe {a b : S} (h : SendEq a b) : b.failedByMe = a.failedBy
 theorem SendEq.droppedByMe {a b : S} (h : SendEq a b) : b.droppedByMe = a.droppedByMe := by unfold SendEq at h; rw [h]
 theorem SendEq.remoteCloseCode {a b : S} (h : SendEq a b) : b.remoteCloseCode = a.remoteCloseCode := by unfold SendEq at h; rw [h]
 theorem SendEq.remoteCloseReason {a b : S} (h : SendEq a b) : b.remoteCloseReason = a.remoteCloseReason := by unfold SendEq at h; rw [h]
+theorem SendEq.closeSent {a b : S} (h : SendEq a b) : b.closeSent = a.closeSent := by unfold SendEq at h; rw [h]
 theorem SendEq.data {a b : S} (h : SendEq a b) : b.data = a.data := by unfold SendEq at h; rw [h]
 theorem SendEq.cur {a b : S} (h : SendEq a b) : b.cur = a.cur := by unfold SendEq at h; rw [h]
 
